@@ -132,7 +132,9 @@ def stateLine (m : Machine) (flagsUnknown : Bool := false) : String :=
 
 /-- scripted hook: logs (id, phase, rip, count), optionally edits a register, then reports its outcome -/
 def scriptedHook (id phase outcome : String) (edit : Option (Fin 16 × BitVec 64)) : HookFn := fun s =>
-  let s1 := { s with log := s.log ++ [s!"{id}:{phase}:{toHex s.regs.rip.toNat}:{s.count}:{if s.hooksRunning then 1 else 0}"] }
+  -- "tryreg": the hook tries to register hooks itself; while a hook runs both attempts are refused and change nothing
+  let suffix := if outcome == "tryreg" then (if s.hooksRunning then ":rej11" else ":rej00") else ""
+  let s1 := { s with log := s.log ++ [s!"{id}:{phase}:{toHex s.regs.rip.toNat}:{s.count}:{if s.hooksRunning then 1 else 0}{suffix}"] }
   let s2 := match edit with
     | some (i, v) => { s1 with regs := s1.regs.set i v }
     | none => s1
